@@ -17,5 +17,14 @@ func VH_C09_K3_KernelSteps() {
 			return
 		}
 		verifrt.Reach("step-survived")
+		if e.voteAsked {
+			// every add-vote request is answered, with a result the mirror's handlers know how to
+			// digest (they panic on anything but accepted / conflict / out-of-date)
+			verifrt.Assert(e.voteAnswered, "K3:add-vote-request-is-answered")
+			if e.voteAnswered {
+				okAns := e.voteAnswer == AddVoteAccepted || e.voteAnswer == AddVoteConflict || e.voteAnswer == AddVoteOutOfDate
+				verifrt.Assert(okAns, "K3:add-vote-answer-is-one-the-mirror-handles")
+			}
+		}
 	}
 }
